@@ -16,7 +16,7 @@ P = {
          "Lean 4 proof (well-founded induction on the decoder, simulation) + differential correspondence + spec decoder/grammar as oracle", "7 C03"),
  "C04": ("proof", "Proved for all NUL-free strings, with and without LABELS_ALLOW_UNDERSCORE: is_ascii_domain accepts <=> HostOk (labels of letters/digits/inner hyphens, 1-63, total <= 253, optional root dot, not all-numeric) (domLoop_ok loop invariant, host_iff, host6531_sound). K incl. the byte at *end; S vs specHost for default and underscore builds, 6531 acceptances checked on the A-label libidn2 produced.",
          "Lean 4 proof (loop invariant) + differential correspondence + host-name spec as oracle", "7 C04"),
- "C05": ("proof", "Proved for all NUL-free strings: inside a literal is_ipv4 = exactly four decimal octets 0-255 with single dots and non-zero first octet (isIpv4_literal, loop invariant ipv4Loop_eq); is_ipv6 accepts only RFC 4291 textual addresses (isIpv6_upper) and accepts every RFC 5321 4.1.3 address (isIpv6_lower); check_ip accepts only '[' addr ']' with nothing after the bracket and no tag other than IPv6: (literal_upper), accepts the promised set (literal_lower), reports the family present (literal_family), identically in the four modes (literal_every_mode). Partial in one respect: the theorems use the inductive grammars IsV6_4291/IsV6_5321; the executable forms evaluated by S are not yet proved equal to them. K: is_ipv4/is_ipv6/is_ipaddr and whole addresses vs model; S: accept => upper, lower => accept, flag = family.",
+ "C05": ("proof", "Proved for all NUL-free strings: inside a literal is_ipv4 = exactly four decimal octets 0-255 with single dots and non-zero first octet (isIpv4_literal, loop invariant ipv4Loop_eq); is_ipv6 accepts only RFC 4291 textual addresses (isIpv6_upper) and accepts every RFC 5321 4.1.3 address (isIpv6_lower); check_ip accepts only '[' addr ']' with nothing after the bracket and no tag other than IPv6: (literal_upper), accepts the promised set (literal_lower), reports the family present (literal_family), identically in the four modes (literal_every_mode). The executable forms of the two grammars that the S stream evaluates are proved equal to the inductive grammars the theorems are stated against (v6_4291_iff, v6_5321_iff, literalUpper_iff, literalLower_iff, literal_sandwich). K: is_ipv4/is_ipv6/is_ipaddr and whole addresses vs model; S: accept => upper, lower => accept, flag = family.",
          "Lean 4 proof (loop invariants for the two Postfix scanners against inductive grammars) + differential correspondence + sandwich spec as oracle", "7 C05"),
  "C06": ("proof", "Proved at model level for every NUL-free input and every legal call sequence: no modelled function reads past the terminator, label copies stay inside label[64], no NULL callback is called, abort() is unreachable, no dead block is freed, every is_*_email returns a record (isAsciiDomain_ok ... isEmail_ok, step_isEmail_ok, copyLabel_take, errcode_lt_max, C13 ledger); termination is checked by Lean (structural / well-founded recursion, <= n steps). Partial: what the compiled C reads/writes is runtime - all correspondence streams run under ASan+UBSan+LSan with exact-size heap inputs and a 0xA5-poisoned heap eav_t, 64 KiB inputs, valgrind memcheck (thorough), callgrind instruction counts for doubling lengths (linear work).",
          "Lean 4 proof (no-fault theorems over the fault-aware model) + sanitizer-instrumented differential runs + callgrind linearity", "7 C06"),
